@@ -9,6 +9,7 @@ import (
 	"github.com/hashicorp/hcl-lang/schema"
 	"github.com/hashicorp/hcl/v2"
 	"github.com/hashicorp/hcl/v2/hclsyntax"
+	"github.com/hashicorp/hcl/v2/json"
 	"github.com/zclconf/go-cty/cty"
 )
 
@@ -124,6 +125,16 @@ func dependencyKeysFromBlock(block *hcl.Block, blockSchema blockSchema) schema.D
 					continue
 				}
 
+				if addr, ok := jsonReferenceAddress(attr.Expr, attrSchema.Constraint); ok {
+					dk.Attributes = append(dk.Attributes, schema.AttributeDependent{
+						Name: name,
+						Expr: schema.ExpressionValue{
+							Address: addr,
+						},
+					})
+					continue
+				}
+
 				var diags hcl.Diagnostics
 				value, diags = attr.Expr.Value(nil)
 				if len(diags) > 0 && value.IsNull() {
@@ -152,4 +163,52 @@ func dependencyKeysFromBlock(block *hcl.Block, blockSchema blockSchema) schema.D
 		}
 	}
 	return dk
+}
+
+// jsonReferenceAddress returns the address a JSON expression refers to, where
+// it is a reference written as "${aws.west}", or - for an attribute which
+// can only hold a reference - in the legacy form "aws.west".
+//
+// The JSON syntax has no traversal expression of its own, such that
+// the same reference written there would otherwise never select
+// the dependent body that the native syntax selects.
+func jsonReferenceAddress(expr hcl.Expression, cons schema.Constraint) (lang.Address, bool) {
+	if !json.IsJSONExpression(expr) {
+		return nil, false
+	}
+
+	// Given the limited AST/API access to JSON we can only
+	// guess whether the expression has exactly a single traversal
+	vars := expr.Variables()
+	if len(vars) == 1 {
+		tRange := vars[0].SourceRange()
+		exprRange := expr.Range()
+		// account for "${ and }"
+		if tRange.Start.Byte-3 == exprRange.Start.Byte && tRange.End.Byte+2 == exprRange.End.Byte {
+			addr, err := lang.TraversalToAddress(vars[0])
+			if err == nil {
+				return addr, true
+			}
+		}
+		return nil, false
+	}
+
+	if _, ok := cons.(schema.Reference); !ok {
+		return nil, false
+	}
+
+	// "legacy" string syntax
+	val, diags := expr.Value(nil)
+	if diags.HasErrors() || val.IsNull() || !val.IsKnown() || val.Type() != cty.String {
+		return nil, false
+	}
+	traversal, diags := hclsyntax.ParseTraversalAbs([]byte(val.AsString()), expr.Range().Filename, expr.Range().Start)
+	if diags.HasErrors() {
+		return nil, false
+	}
+	addr, err := lang.TraversalToAddress(traversal)
+	if err != nil {
+		return nil, false
+	}
+	return addr, true
 }
